@@ -66,4 +66,5 @@ def main():
                 json.dump(meta2, open(dest + '/meta.json', 'w'), indent=1)
         finally:
             sh('git -C /repo worktree remove --force %s' % wt)
-main()
+if __name__ == "__main__":
+    main()
